@@ -16,6 +16,13 @@ R2  spec->code: DescriptiveGen.tla enumerates weighted integer samples (ties, co
     pi/2 (values in units of pi), the argument contract of every function (length / order / range requirements),
     and PC / CC (principal components, canonical correlations) on planted data that the definitions IsPCA / IsCCA
     accept, as two-analysis histories on one receiver with the destination decision tables.
+    Representations (seeded change C10-6): the matrix / vector arguments of CovarianceMatrix, CorrelationMatrix,
+    Mahalanobis, PC.PrincipalComponents, CC.CanonicalCorrelations are abstract matrices in the specification; every
+    case of the families mat, affmat, pca, cca, marg, maha is replayed with the same expected values in each Go
+    representation of them (compact Dense, window of a larger junk-filled matrix with stride > columns and offsets,
+    transpose of the transposed data, transpose of a window, a user type with only the interface; strided / offset /
+    user-type vectors; Sigma as SymDense / window / user type) and into empty / pre-sized / window destinations,
+    junk around every window untouched (harness/internal/stat/reps.go) - property C04's statement for package stat.
 R3  code->spec: larger seeded samples (n up to 200) are run through gonum, the integer-valued
     results are logged and TLC recomputes them from the logged sample (DescriptiveTrace.tla).
 """
@@ -183,6 +190,9 @@ def run(ctx):
         "tolerances are the rounding-error bounds stated and derived in specs/stat/DescriptiveAff.tla (mean error "
         "E = 16 u (|offset| + max|x|); corrected two-pass quantities 2^-40 (2 max|x| + E)^2, divided by sigma / "
         "min(Sxx, Syy) / var(x) for StdDev / Correlation / slope; uncorrected ones first order in E, checked while E <= 1/4)",
+        "matrix arguments: the representations of one abstract matrix / vector (compact, window of a junk-filled parent, "
+        "transpose, user type; harness/internal/stat/reps.go) are operand builders and trusted as such; the expected values "
+        "are the specification's for the abstract matrix, whatever the representation",
         "where the documentation admits two readings (sample vs population skewness/kurtosis, zero-weight leading "
         "entries at p = 0, ROC threshold on a data value) every reading is accepted",
         "extension: values stated in units of ln 2 / pi are compared after the harness multiplies the specification's "
